@@ -137,7 +137,11 @@ def run(ctx):
     cands = [("cand|bom", "\ufeffb = 2"), ("cand|bom-only", "\ufeff"), ("cand|bom-mid", "a = 1\ufeff"), ("cand|lead-nl", "\n\nb = 2"), ("cand|trail-nl", "b = 2\n\n"), ("cand|lead-sp", "   b = 2"),
              ("cand|crlf", "b = 2\r\nc = 3\r\n"), ("cand|cr", "b = 2\rc = 3"), ("cand|lead-semi", "; b = 2"), ("cand|trail-semi", "b = 2;"), ("cand|comment-only", "# only"),
              ("cand|lead-comment", "# c\nb = 2"), ("cand|trail-comment", "b = 2 # c"), ("cand|block-comment", "/* x */ b = 2 /* y */"), ("cand|tab", "\tb = 2\t"), ("cand|nbsp", "\u00a0b = 2"),
-             ("cand|ff", "\x0cb = 2"), ("cand|zwsp", "\u200bb = 2"), ("cand|shebang", "#!/usr/bin/anko\nb = 2"), ("cand|empty", "")]
+             ("cand|ff", "\x0cb = 2"), ("cand|zwsp", "\u200bb = 2"), ("cand|shebang", "#!/usr/bin/anko\nb = 2"), ("cand|empty", ""),
+             # bytes a text may carry anywhere a comment or a string allows them: NUL, other control characters, DEL, invalid UTF-8 is Go's business (U+FFFD)
+             ("cand|nul-in-comment", "b = 2 # c\x00d"), ("cand|nul-end-comment", "b = 2 # c\x00"), ("cand|nul-in-string", "b = \"x\x00y\""), ("cand|nul-in-raw", "b = `x\x00y`"),
+             ("cand|nul-in-block-comment", "/* \x00 */ b = 2"), ("cand|nul-line-comment", "// \x00\nb = 2"), ("cand|nul-bare", "b = 2\x00"), ("cand|nul-lead", "\x00b = 2"), ("cand|ctrl-in-comment", "b = 2 # \x01\x7f\x1b"),
+             ("cand|ctrl-in-string", "b = \"\x01\x7f\""), ("cand|del-bare", "b = 2\x7f")]
     srcs += [{"id": i, "src": t} for i, t in cands]
     pairs += [{"A": a, "B": c} for a in partners for c, _ in cands] + [{"A": c, "B": b} for b in partners for c, _ in cands] + [{"A": c, "B": d} for c, _ in cands[:6] for d, _ in cands[:6]]
     # shard over processes
